@@ -539,6 +539,155 @@ pub(crate) fn search_ntt(seed: u64) -> Option<String> {
     None
 }
 
+/// Directed witness search for hash_to_point (bounded; witness production only).
+pub(crate) fn h2p_case(input: &[u8], n: usize) -> Result<(), String> {
+    let got: Vec<i64> = crate::polynomial::hash_to_point(input, n).coefficients.iter().map(|c| c.value() as i64).collect();
+    let want = refspec::hash_to_point(input, n);
+    if got.len() != want.len() { return Err(format!("hash_to_point returned {} coefficients for n = {}", got.len(), n)); }
+    for i in 0..n {
+        if got[i] != want[i] { return Err(format!("hash_to_point(.., {})[{}] = {} but Algorithm 3 gives {}", n, i, got[i], want[i])); }
+    }
+    Ok(())
+}
+pub(crate) fn search_h2p(seed: u64) -> Option<String> {
+    let mut fixed: Vec<Vec<u8>> = vec![vec![], vec![0], vec![0xff; 41], (0..=255u8).collect()];
+    for i in 0..60000u32 { fixed.push(format!("vx-h2p-{}-{}", seed, i).into_bytes()); }
+    for inp in fixed.iter() {
+        for n in [512usize, 1024] {
+            if let Err(why) = h2p_case(inp, n) { return Some(format!("{} | argv=h2p-case,{},{}", why, n, hexs(inp))); }
+        }
+    }
+    for inp in fixed.iter().take(300) {
+        for n in [1usize, 2, 3, 8, 64, 100, 256, 2048] {
+            if let Err(why) = h2p_case(inp, n) { return Some(format!("{} | argv=h2p-case,{},{}", why, n, hexs(inp))); }
+        }
+    }
+    None
+}
+
+/// Directed witness search for sign (bounded; witness production only): a handful of honest
+/// signatures under one key, on two threads; every one must verify and carry its own salt.
+pub(crate) fn sign_case(msgs: &[Vec<u8>]) -> Result<(), String> {
+    let (sk, pk) = keygen::<512>([7u8; 32]);
+    let mut sigs: Vec<(Vec<u8>, Signature<512>)> = Vec::new();
+    for m in msgs { sigs.push((m.clone(), sign::<512>(m, &sk))); sigs.push((m.clone(), sign::<512>(m, &sk))); }
+    let other: Vec<(Vec<u8>, Signature<512>)> = std::thread::scope(|sc| {
+        sc.spawn(|| msgs.iter().map(|m| (m.clone(), sign::<512>(m, &sk))).collect::<Vec<_>>()).join().unwrap()
+    });
+    sigs.extend(other);
+    for (m, sg) in sigs.iter() {
+        if !verify::<512>(m, sg, &pk) { return Err(format!("[only:C01,C05] an honest signature of message {} is rejected by verify", hexs(m))); }
+        let b = sg.to_bytes();
+        if b.len() != 666 { return Err(format!("[only:C01,C05] signature encodes to {} bytes", b.len())); }
+        if b[1..41] != sg.r[..] { return Err("[only:C08,C05] bytes 1..41 of the encoded signature are not its salt".into()); }
+    }
+    for i in 0..sigs.len() {
+        for j in 0..i {
+            if sigs[i].1.r == sigs[j].1.r { return Err(format!("[only:C08] two of {} sign calls returned the same salt {}", sigs.len(), hexs(&sigs[i].1.r))); }
+        }
+    }
+    for pos in 0..40 {
+        if sigs.iter().all(|(_, sg)| sg.r[pos] == sigs[0].1.r[pos]) { return Err(format!("[only:C08] salt byte {} is the same in all {} signatures", pos, sigs.len())); }
+    }
+    Ok(())
+}
+pub(crate) fn search_sign(_seed: u64) -> Option<String> {
+    let msgs: Vec<Vec<u8>> = vec![vec![], b"vx".to_vec(), vec![0xa5; 200], b"vx".to_vec()];
+    match sign_case(&msgs) {
+        Ok(()) => None,
+        Err(why) => Some(format!("{} | argv=sign-case,{}", why, msgs.iter().map(|m| format!("x{}", hexs(m))).collect::<Vec<_>>().join(";"))),
+    }
+}
+
+/// Directed witness search for key generation and the key codecs (bounded; witness production only).
+pub(crate) fn keygen_case<const N: usize>(seed: [u8; 32]) -> Result<(), String> {
+    use crate::ffsampling::LdlTree;
+    let (sk, pk) = keygen::<N>(seed);
+    let q = 12289i64;
+    let g: Vec<i64> = sk.b0[0].coefficients.iter().map(|&c| c as i64).collect();
+    let f: Vec<i64> = sk.b0[1].coefficients.iter().map(|&c| -(c as i64)).collect();
+    let cg: Vec<i64> = sk.b0[2].coefficients.iter().map(|&c| c as i64).collect();
+    let cf: Vec<i64> = sk.b0[3].coefficients.iter().map(|&c| -(c as i64)).collect();
+    let h: Vec<i64> = pk.h.coefficients.iter().map(|c| c.value() as i64).collect();
+    if f.len() != N || g.len() != N || cf.len() != N || cg.len() != N || h.len() != N { return Err("[only:C04] a key polynomial does not have N coefficients".into()); }
+    let mul = |a: &Vec<i64>, b: &Vec<i64>| -> Vec<i64> {
+        let mut out = vec![0i64; N];
+        for i in 0..N { for j in 0..N { if i + j < N { out[i + j] += a[i] * b[j]; } else { out[i + j - N] -= a[i] * b[j]; } } }
+        out
+    };
+    let fg = mul(&f, &cg); let gf = mul(&g, &cf);
+    for k in 0..N {
+        let want = if k == 0 { q } else { 0 };
+        if fg[k] - gf[k] != want { return Err(format!("[only:C04] (f*G - g*F)[{}] = {} over Z[X]/(X^n+1), expected {}", k, fg[k] - gf[k], want)); }
+    }
+    let hf = mul(&h, &f);
+    for k in 0..N {
+        if (hf[k] - g[k]).rem_euclid(q) != 0 { return Err(format!("[only:C04] (h*f - g)[{}] = {} is not 0 modulo q", k, (hf[k] - g[k]).rem_euclid(q))); }
+    }
+    let sigmin = if N == 512 { 1.2778336969128337f64 } else { 1.298280334344292f64 };
+    fn leaves(t: &LdlTree, out: &mut Vec<f64>) {
+        match t { LdlTree::Branch(_, l, r) => { leaves(l, out); leaves(r, out); } LdlTree::Leaf(v) => out.push(v[0].re) }
+    }
+    let mut lv = Vec::new();
+    leaves(&sk.tree, &mut lv);
+    if lv.len() != N { return Err(format!("[only:C04] the signing tree has {} leaves, expected {}", lv.len(), N)); }
+    for (i, &l) in lv.iter().enumerate() {
+        if !(l >= sigmin && l <= 1.8205) { return Err(format!("[only:C04] tree leaf {} = {} lies outside [sigma_min, sigma_max] = [{}, 1.8205]", i, l, sigmin)); }
+    }
+    let skb = sk.to_bytes(); let pkb = pk.to_bytes();
+    let (skl, pkl) = if N == 512 { (1281, 897) } else { (2305, 1793) };
+    if skb.len() != skl || pkb.len() != pkl { return Err(format!("[only:C05] key encodings have {} / {} bytes, expected {} / {}", skb.len(), pkb.len(), skl, pkl)); }
+    match SecretKey::<N>::from_bytes(&skb) { Ok(sk2) => if sk2 != sk { return Err("[only:C05] from_bytes(to_bytes(sk)) != sk".into()); } else if sk2.to_bytes() != skb { return Err("[only:C05,C06] secret key re-encoding differs".into()); }, Err(e) => return Err(format!("[only:C05] from_bytes(to_bytes(sk)) fails: {:?}", e)) }
+    match PublicKey::<N>::from_bytes(&pkb) { Ok(pk2) => if pk2 != pk { return Err("[only:C05] from_bytes(to_bytes(pk)) != pk".into()); }, Err(e) => return Err(format!("[only:C05] from_bytes(to_bytes(pk)) fails: {:?}", e)) }
+    Ok(())
+}
+pub(crate) fn search_keygen(_seed: u64) -> Option<String> {
+    for s in [0u8, 1, 2] {
+        let r = std::panic::catch_unwind(|| keygen_case::<512>([s; 32]));
+        if let Ok(Err(why)) = r { return Some(format!("{} | argv=keygen-case,512,{}", why, s)); }
+    }
+    let r = std::panic::catch_unwind(|| keygen_case::<1024>([0u8; 32]));
+    if let Ok(Err(why)) = r { return Some(format!("{} | argv=keygen-case,1024,0", why)); }
+    None
+}
+
+/// strictness of the secret-key decoder on one string
+pub(crate) fn sk_str_case<const N: usize>(b: &[u8], must_reject: bool) -> Result<(), String> {
+    match SecretKey::<N>::from_bytes(b) {
+        Ok(sk) => {
+            if must_reject { return Err(format!("[only:C06] SecretKey::from_bytes accepts a string of {} bytes that the format excludes (wrong length / header / reserved field value)", b.len())); }
+            if sk.to_bytes() != b { return Err("[only:C06] SecretKey::from_bytes accepts a string that is not the encoding of the decoded key".into()); }
+            Ok(())
+        }
+        Err(_) => Ok(()),
+    }
+}
+pub(crate) fn search_sk(seed: u64) -> Option<String> {
+    let mut st = seed.wrapping_mul(6364136223846793005).wrapping_add(1442695040888963407) | 1;
+    let mut rnd = move || { st ^= st << 13; st ^= st >> 7; st ^= st << 17; st };
+    let (sk, _) = keygen::<512>([0u8; 32]);
+    let base = sk.to_bytes();
+    let mut cands: Vec<(Vec<u8>, bool)> = vec![(base.clone(), false), (vec![], true), (vec![0x59], true), (base[..base.len() - 1].to_vec(), true)];
+    { let mut x = base.clone(); x.push(0); cands.push((x, true)); }
+    for hb in 0..8 { let mut x = base.clone(); x[0] ^= 1 << hb; cands.push((x, true)); }
+    // reserved minimum value 10..0 in a field of f (width 6), g (width 6), F (width 8)
+    for (start, w, idx) in [(0usize, 6usize, 0usize), (0, 6, 511), (512 * 6, 6, 3), (2 * 512 * 6, 8, 0), (2 * 512 * 6, 8, 511)] {
+        let mut x = base.clone();
+        for k in 0..w { let p = 8 + start + idx * w + k; let bit = k == 0; if bit { x[p / 8] |= 1 << (7 - p % 8); } else { x[p / 8] &= !(1 << (7 - p % 8)); } }
+        cands.push((x, true));
+    }
+    for _ in 0..200 { let mut x = base.clone(); let p = 8 + (rnd() as usize) % (8 * (base.len() - 1)); x[p / 8] ^= 1 << (7 - p % 8); cands.push((x, false)); }
+    for (c, mr) in cands {
+        let r = std::panic::catch_unwind(|| sk_str_case::<512>(&c, mr));
+        match r {
+            Ok(Err(why)) => return Some(format!("{} | argv=sk-str-case,512,{},{}", why, if mr { 1 } else { 0 }, hexs(&c))),
+            Err(_) => return Some(format!("[only:C03] SecretKey::from_bytes panics | argv=sk-str-case,512,{},{}", if mr { 1 } else { 0 }, hexs(&c))),
+            _ => {}
+        }
+    }
+    search_keygen(seed)
+}
+
 /// Directed witness search for the public-key codec (bounded; witness production only).
 pub(crate) fn pk_case<const N: usize>(b: &[u8]) -> Result<(), String> {
     // decode: accepted strings must be canonical and carry only fields below q
